@@ -20,6 +20,8 @@ func genAll() {
 	genData()
 	genApply()
 	genDecNode()
+	genImportsSrc()
+	genErrProp()
 }
 
 // ---------------------------------------------------------------------------------
